@@ -2,6 +2,7 @@ import KsiVerif.Util.DriverMain
 import KsiVerif.Model.Sha
 import KsiVerif.Model.Tlv
 import KsiVerif.Spec.HashChain
+import KsiVerif.Spec.Tlv
 /-! Model driver for C03 — protocol in harness/exec_c03.c. -/
 open KsiVerif KsiVerif.HashChain KsiVerif.HashChainSpec
 
@@ -15,6 +16,7 @@ def parseLink (s : String) : Option Link :=
       let sib : Option Sibling :=
         if k == "i" then (match b with | a :: dg => some (.imprint a.toNat dg) | [] => none)
         else if k == "l" then some (.legacyId b)
+        else if k == "M" then some (.metaData (TlvSpec.encode (.raw 1 false false b)))   -- client id element, shortest header form
         else match Tlv.parseBlob b with     -- metadata: the element's payload is what is hashed
           | .ok (.raw _ _ _ p) => some (.metaData p)
           | _ => none
@@ -95,7 +97,15 @@ def handle (inp out : String) : String :=
         | .ok (some c) => s!"0 {toHex c}"
         | .ok none => "0 -"
         | .error e => s!"{e} -"
-      verdict s!"cal:{(ms.splitOn " ").head!}:n{min links.length 9}" ms out none
+      let spec : Option String :=
+        match ow, input with
+        | ["0", imp], a :: _ =>
+          if links.isEmpty then none else
+          match refCalendar H a.toNat links input with
+          | some c => if toHex c != imp then some "calendar-root-differs-from-algorithm-switching-rule" else none
+          | none => some "accepted-calendar-chain-with-uncomputable-algorithm"
+        | _, _ => none
+      verdict s!"cal:{(ms.splitOn " ").head!}:n{min links.length 9}" ms out spec
     | _, _ => "skip bad-cal-args"
   | ["caltime", pt, bits] =>
     match pt.toNat? with
